@@ -827,6 +827,15 @@ class TrigTime:
                     # Try a day offset (won't make a difference if spec has full date)
                     #
                     this_t, _ = await cls.parse_date_time(match1[1].strip(), day_offset, now, startup_time)
+                if this_t <= now and not (now == this_t == startup_time) and re.match(r"0*\d+[-/]0*\d+(?![-/\d])", match1[1].strip()):
+                    #
+                    # a date without a year is once per year: it has passed this year, so use next year
+                    #
+                    try:
+                        next_year = dt.datetime(now.year + 1, 1, 1)
+                        this_t, _ = await cls.parse_date_time(match1[1].strip(), 0, next_year, startup_time)
+                    except ValueError:
+                        pass
                 startup = now == this_t and now == startup_time
                 if (now < this_t or startup) and (next_time is None or this_t < next_time):
                     next_time_adj = next_time = this_t
